@@ -219,7 +219,7 @@ PROPS = {
         "level": "model_checking",
         "technique": "stateless model checking of concurrent create/open/open_or_create/drop of one service by several nodes (threads) on the real service builder code; bounded-exhaustive single-thread histories and the full creator-settings x opener-requirements table (seqx leg)",
         "legs": [{"ws": "mc", "bin": "h_service_mt"}, {"ws": "seq", "bin": "h_lifecycle", "args": ["--prop", "C06"]}],
-        "rule": "one case = (messaging pattern: publish-subscribe | event, per-thread call: create(settings) | open | open_or_create(settings) | create-then-drop | open-then-drop); every schedule within the preemption bound is executed on the real code (local service: process-local storages, their pthread mutex and the clock under scheduler control); outcome = what every call returned",
+        "rule": "one case = (messaging pattern: publish-subscribe | event | request-response | blackboard (creator/opener only), per-thread call: create(settings) | open | open_or_create(settings) | create-then-drop | open-then-drop); every schedule within the preemption bound is executed on the real code (local service: process-local storages, their pthread mutex and the clock under scheduler control); outcome = what every call returned",
         "assumptions": IXMC_ASSUME + ["local::Service (process-local static/dynamic storages) stands for the ipc variant at thread level; the file/shm based creation protocol between processes is exercised only sequentially (seqx leg) and by the crash enumeration of C04", "two-process interleaving search (DESIGN.md §3.2 use 3) was cut", "scheduling points on locations that only one thread touches after the setup phase, or that nobody writes, are elided (learned set, iterated to a fixed point)"],
         "design_ref": "DESIGN.md §3.1, §4 C06",
         "level_text": "All schedules (preemption bound) of 2-3 nodes that create, open, open-or-create and drop the same service concurrently are executed on the real builder code: at most one creation succeeds, all live handles report the one configuration some creator asked for, every call returns a service or a documented contention error, the service exists while a handle lives, disappears with the last one and can then be created with other settings.",
